@@ -67,9 +67,21 @@ def deep_same(a, b, ordered=True):
                 and list(a.kwargs) == list(b.kwargs) and all(deep_same(a.kwargs[k], b.kwargs[k], ordered) for k in a.kwargs))
     if type(a) is not type(b):
         return False
-    if type(a) in (list, tuple):
+    if isinstance(a, (list, tuple)) and not hasattr(type(a), '_fields'):       # (same type: checked above; subclasses included)
         return len(a) == len(b) and all(deep_same(x, y, ordered) for x, y in zip(a, b))
-    if type(a) is dict:
+    if isinstance(a, (set, frozenset)):
+        if len(a) != len(b):
+            return False
+        rest = list(b)
+        for x in a:
+            for i, y in enumerate(rest):
+                if deep_same(x, y, ordered):
+                    del rest[i]
+                    break
+            else:
+                return False
+        return True
+    if type(a) is dict or (isinstance(a, dict) and type(a).__module__ == 'ppv.vtypes'):
         if len(a) != len(b):
             return False
         if ordered:
